@@ -320,7 +320,7 @@ func (f *FnEnc) copyOp(st *State, R string, dst, src Val) string {
 			sinner := f.c.define("sinner", innerSort(so), sel(sel(h, src.L[0]), src.L[1]))
 			srcAt = "(select " + sinner + " (bvadd (bvsub k!l " + dst.L[2] + ") " + src.L[2] + "))"
 		}
-		ninner := "(lambda ((k!l (_ BitVec 64))) (ite (bvult (bvsub k!l " + dst.L[2] + ") " + n + ") " + srcAt + " (select " + dinner + " k!l)))"
+		ninner := f.c.lambda(so, "(ite "+inRange("k!l", dst.L[2], bvadd(dst.L[2], n))+" "+srcAt+" (select "+dinner+" k!l))")
 		st.heaps[so] = f.c.define("H"+className(so), heapSort(so), sto(h, dst.L[0], sto(dmid, dst.L[1], ninner)))
 		return n
 	}
@@ -329,7 +329,7 @@ func (f *FnEnc) copyOp(st *State, R string, dst, src Val) string {
 		h := f.heap(st, so)
 		dmid := f.c.define("dmid", midSort(so), sel(h, dst.L[0]))
 		smid := f.c.define("smid", midSort(so), sel(h, src.L[0]))
-		nmid := "(lambda ((k!l (_ BitVec 64))) (ite (bvult (bvsub k!l " + dst.L[1] + ") " + n + ") (select " + smid + " (bvadd (bvsub k!l " + dst.L[1] + ") " + src.L[1] + ")) (select " + dmid + " k!l)))"
+		nmid := f.c.lambda(innerSort(so), "(ite "+inRange("k!l", dst.L[1], bvadd(dst.L[1], n))+" (select "+smid+" (bvadd (bvsub k!l "+dst.L[1]+") "+src.L[1]+")) (select "+dmid+" k!l))")
 		st.heaps[so] = f.c.define("H"+className(so), heapSort(so), sto(h, dst.L[0], nmid))
 	}
 	return n
@@ -380,7 +380,7 @@ func (f *FnEnc) appendOp(st *State, R string, s, t Val, rt types.Type) Val {
 			tAt = "(select " + tinner + " (bvadd (bvsub " + off + " " + s.L[3] + ") " + t.L[2] + "))"
 		}
 		oldAt := ite(fits, "(select "+sinner+" k!l)", ite("(bvult "+off+" "+s.L[3]+")", "(select "+sinner+" (bvadd "+s.L[2]+" "+off+"))", zeroOf(so)))
-		ninner := "(lambda ((k!l (_ BitVec 64))) (ite (and (bvule " + s.L[3] + " " + off + ") (bvult " + off + " " + newLen + ")) " + tAt + " " + oldAt + "))"
+		ninner := f.c.lambda(so, "(ite (and (bvule "+s.L[3]+" "+off+") (bvult "+off+" "+newLen+")) "+tAt+" "+oldAt+")")
 		nmid := ite(fits, sto(smid, s.L[1], ninner), fmt.Sprintf("((as const %s) %s)", midSort(so), ninner))
 		st.heaps[so] = f.c.define("H"+className(so), heapSort(so), sto(h, ref, nmid))
 	} else {
@@ -392,7 +392,7 @@ func (f *FnEnc) appendOp(st *State, R string, s, t Val, rt types.Type) Val {
 			tAt := "(select " + tmid + " (bvadd (bvsub " + off + " " + s.L[3] + ") " + t.L[1] + "))"
 			zinner := fmt.Sprintf("((as const %s) %s)", innerSort(so), zeroOf(so))
 			oldAt := ite(fits, "(select "+smid+" k!l)", ite("(bvult "+off+" "+s.L[3]+")", "(select "+smid+" (bvadd "+s.L[1]+" "+off+"))", zinner))
-			nmid := "(lambda ((k!l (_ BitVec 64))) (ite (and (bvule " + s.L[3] + " " + off + ") (bvult " + off + " " + newLen + ")) " + tAt + " " + oldAt + "))"
+			nmid := f.c.lambda(innerSort(so), "(ite (and (bvule "+s.L[3]+" "+off+") (bvult "+off+" "+newLen+")) "+tAt+" "+oldAt+")")
 			st.heaps[so] = f.c.define("H"+className(so), heapSort(so), sto(h, ref, nmid))
 		}
 	}
